@@ -24,7 +24,10 @@ def setup_concrete():
 
 
 def default_values(case):
-    return pipeline.default_values()
+    vals = pipeline.default_values()
+    one_dim = dict(vals[0])
+    one_dim.update(dict(mu=0.1, L=1.0, gamma0=1.0))     # step 1/L: the worst-case example is one-dimensional
+    return vals + [one_dim]
 
 
 class SymStr(str):
@@ -324,8 +327,9 @@ def prog_options_concrete(env, case):
         MosekStub(env).install()
     which = case['option']
     values = INVALID_RETURN if which == 'return_primal_or_dual' else INVALID_DIMRED
+    values = case.get('only_values', values)
     n_ok = 0
-    cenv = _ConcreteParams(env)
+    cenv = _ConcreteParams(env, one_dim=case.get('one_dim', False))
     for v in values:
         pep = PEP()
         objs, model = make_objects(cenv, pep)      # concrete class parameters: the option string is the subject here
@@ -349,12 +353,13 @@ def prog_options_concrete(env, case):
 
 
 class _ConcreteParams:
-    def __init__(self, env):
+    def __init__(self, env, one_dim=False):
         self._env = env
         self.sym = env.sym
+        self.one_dim = one_dim
 
     def real(self, name, **kw):
-        return dict(mu=0.1, L=1.0, gamma0=0.5).get(name, 1.0)
+        return dict(mu=0.1, L=1.0, gamma0=1.0 if self.one_dim else 0.5).get(name, 1.0)
 
     def assume(self, *a, **kw):
         pass
@@ -412,6 +417,11 @@ def cases(tier):
     cs.append(dict(id="opt-dimred", kind='options', option='dimension_reduction_heuristic', **common))
     cs.append(dict(id="opt-return-concrete", kind='options-concrete', option='return_primal_or_dual', **common))
     cs.append(dict(id="opt-dimred-concrete", kind='options-concrete', option='dimension_reduction_heuristic', **common))
+    both = dict(common)
+    both['output_branches'] = 'both'     # every outcome of the rank / eigenvalue comparisons made before the option is
+    for k, v in enumerate(['nuclear', 'TRACE', 'logdet']):      # validated is explored (one string per case: the forks multiply)
+        cs.append(dict(id="opt-dimred-allbranches-%d" % k, kind='options-concrete', option='dimension_reduction_heuristic',
+                       one_dim=True, only_values=[v], **both))
     cs.append(dict(id="wrapper-unknown", kind='wrapper', name='zz_not_a_package', fallback_documented=True, **common))
     cs.append(dict(id="wrapper-numpy", kind='wrapper', name='numpy', fallback_documented=False, **common))
     cs.append(dict(id="wrapper-CVXPY", kind='wrapper', name='CVXPY', fallback_documented=True, **common))
